@@ -59,14 +59,14 @@ impl Layout {
     }
 }
 
-/// byte-wise copy (a memcpy into the datagram array would make CBMC treat the whole array as one
-/// symbolic object and lose the pinned type/length words)
+/// byte-wise, loop-free copy of up to 32 bytes (a memcpy into the datagram array would make CBMC
+/// treat the whole array as one symbolic object and lose the pinned type/length words; a loop
+/// would need a larger global unwind bound)
 fn put_bytes(b: &mut [u8], off: usize, src: &[u8]) {
-    let mut i = 0;
-    while i < src.len() {
-        b[off + i] = src[i];
-        i += 1;
-    }
+    let n = src.len();
+    assert!(n <= 32);
+    macro_rules! cp { ($($i:expr),*) => { $( if n > $i { b[off + $i] = src[$i]; } )* } }
+    cp!(0, 1, 2, 3, 4, 5, 6, 7, 8, 9, 10, 11, 12, 13, 14, 15, 16, 17, 18, 19, 20, 21, 22, 23, 24, 25, 26, 27, 28, 29, 30, 31);
 }
 
 fn put16(b: &mut [u8], off: usize, v: usize) {
@@ -86,8 +86,6 @@ pub enum Split {
 fn c07_body(lay: Layout, msg: &mut [u8], split: Split) -> Obs {
     // ---- all symbolic values up front
     stubs::symbolic_clock();
-    stubs::symbolic_rng();
-    let read: usize = 6;
     let valid: usize = kani::any();
     kani::assume(valid <= MAX_COOKIES);
     let desired: i8 = kani::any();
@@ -110,11 +108,14 @@ fn c07_body(lay: Layout, msg: &mut [u8], split: Split) -> Obs {
     let authentic: bool = kani::any();
     let send_raw: u64 = kani::any();
     let recv_raw: u64 = kani::any();
+    // universally quantified byte position inside a 12-byte cookie
+    let jq: usize = kani::any();
+    kani::assume(jq < 12);
     assert!(msg.len() == lay.total());
 
     // ---- pre-state: an NTS source that has a request in flight (what `handle_timer` leaves
     // behind: c13_poll_* check that the pending identifier is the one on the wire)
-    let stash = stash_with_oldest(read, valid, vec![0xAA, 0xBB, 0xCC, 0xDD]);
+    let stash = stash0(valid, vec![0xAA, 0xBB, 0xCC, 0xDD]);
     let nts = sh::nts_data_with_stash(stash, c2s(), s2c());
     let version = if lay.v5 { ProtocolVersion::V5 } else { ProtocolVersion::V4 };
     let mut src = new_source(version, SourceConfig::default(), poll(desired), Some(nts));
@@ -137,8 +138,7 @@ fn c07_body(lay: Layout, msg: &mut [u8], split: Split) -> Obs {
         msg[75] = 0;
     }
     // version bits as the source expects them (other versions are dropped before anything is
-    // looked at: C12); symbolic field types never are the NTPv5 draft-identification type (UTF-8
-    // validation of symbolic bytes is out of reach; the genuine draft-id field is concrete)
+    // looked at: C12)
     // (leap bits 0, mode 4 = server: a response; other modes are dropped by the last check before
     // process_message and leap bits only travel into the measurement)
     msg[0] = if lay.v5 { 0x2C } else { 0x24 };
@@ -147,17 +147,23 @@ fn c07_body(lay: Layout, msg: &mut [u8], split: Split) -> Obs {
         msg[12] = 0;
         msg[14] = 0;
     }
-    if lay.v5 {
-        if lay.y_len > 0 {
-            kani::assume(!(msg[lay.y_off()] == 0xF5 && msg[lay.y_off() + 1] == 0xFF));
-        }
-        if lay.x_len > 0 {
-            kani::assume(!(msg[lay.x_off()] == 0xF5 && msg[lay.x_off() + 1] == 0xFF));
-        }
+    // field types: Y (in front of the authenticator) and X (after it) are a cookie in clear (v4) or
+    // a reference-id response in clear (v5); every encrypted field is a cookie or an unknown field
+    if lay.y_len > 0 {
+        msg[lay.y_off()] = if lay.v5 { 0xF5 } else { 0x02 };
+        msg[lay.y_off() + 1] = 0x04;
+    }
+    if lay.x_len > 0 {
+        msg[lay.x_off()] = if lay.v5 { 0xF5 } else { 0x02 };
+        msg[lay.x_off() + 1] = 0x04;
+    }
+    {
         let mut k = 0;
         while k < lay.inner {
             let o = lay.nts_off() + 8 + NONCE_LEN + 16 * k;
-            kani::assume(!(msg[o] == 0xF5 && msg[o + 1] == 0xFF));
+            let is_cookie = msg[o] & 1 == 1;
+            msg[o] = if is_cookie { 0x02 } else { 0x43 };
+            msg[o + 1] = if is_cookie { 0x04 } else { 0x21 };
             k += 1;
         }
     }
@@ -188,7 +194,9 @@ fn c07_body(lay: Layout, msg: &mut [u8], split: Split) -> Obs {
         }
         expect_extents(msg, n_off, lay.ct_len(), authentic);
     } else {
-        expect_extents(msg, 0, 0, false);
+        unsafe {
+            AUTHENTIC = false;
+        }
     }
     if lay.x_len > 0 {
         put16(msg, lay.x_off() + 2, lay.x_len);
@@ -283,11 +291,7 @@ fn c07_body(lay: Layout, msg: &mut [u8], split: Split) -> Obs {
                 let idx = c1 - want_new + seen;
                 let c = sh::nts_peek_cookie(nd, idx).unwrap();
                 assert!(c.len() == 12, "stored cookie = body of the encrypted cookie field");
-                let mut j = 0;
-                while j < 12 {
-                    assert!(c[j] == msg[o + 4 + j], "stored cookie bytes come from the encrypted part");
-                    j += 1;
-                }
+                assert!(c[jq] == msg[o + 4 + jq], "stored cookie bytes come from the encrypted part (every byte)");
                 seen += 1;
             }
             k += 1;
@@ -322,7 +326,7 @@ pub struct Obs {
 macro_rules! c07_nts {
     ($name:ident, $lay:expr) => {
         nharness! {
-            #[kani::unwind(34)]
+            #[kani::unwind(8)]
             #[kani::stub(core::str::from_utf8, crate::common::from_utf8_ascii_model)]
             #[kani::stub(core::slice::ascii::is_ascii, crate::common::is_ascii_model)]
             fn $name() {
@@ -343,7 +347,7 @@ macro_rules! c07_nts {
 macro_rules! c07_plain {
     ($name:ident, $lay:expr) => {
         nharness! {
-            #[kani::unwind(34)]
+            #[kani::unwind(8)]
             #[kani::stub(core::str::from_utf8, crate::common::from_utf8_ascii_model)]
             #[kani::stub(core::slice::ascii::is_ascii, crate::common::is_ascii_model)]
             fn $name() {
@@ -362,7 +366,7 @@ macro_rules! c07_plain {
 macro_rules! c07_kf {
     ($name:ident, $lay:expr) => {
         nharness! {
-            #[kani::unwind(34)]
+            #[kani::unwind(8)]
             #[kani::stub(core::str::from_utf8, crate::common::from_utf8_ascii_model)]
             #[kani::stub(core::slice::ascii::is_ascii, crate::common::is_ascii_model)]
             fn $name() {
